@@ -130,6 +130,12 @@ scan without the "still npos" guard leaves the FIRST dot of the component (R-C18
 the last dot of the whole name (dot-unguarded); any other loop shape is not summarised (undecided through the floors).  A
 constructor that delegates to another non-copy constructor counts as normalised by that one (R-C18-11).
 
+Round 10: R-C18-14 (joining): a path separator goes behind the string of a FileName (`filename + path_sep`, or `t += filename;
+t += path_sep`) only where a branch edge on every path says that string is not empty - the empty left operand is neutral.
+R-C18-6: quick rejects in front of the real test of beginsWith: `return false` on "first characters differ" is sound only
+where the prefix is known to be non-empty (prefix[0] of an empty prefix is the NUL); sound rejects are set aside, the rest of
+the function is checked as before.
+
 Helpers: file-local / private helpers are followed with parameters mapped (FileName position helpers are
 summarised into the typestate, a prefix-length index loop stands for std::mismatch, a lookup helper that scans
 from the back and returns the first hit stands for last-duplicate-wins, name=value cutting may live in a helper).
@@ -4796,6 +4802,68 @@ def begins_with_compare(tu, x, f, ps, rets):
     return ('ok', 'input.compare(0, prefix.size(), prefix) == 0', loc)
 
 
+def first_char_reject(tu, x, ps, rnode):
+    """`return false` that every path reaches over an edge saying "the first characters of input and prefix differ":
+       ('ok', cond) if another such edge says the prefix is not empty (then the reject is sound: a non-empty prefix whose first
+       character is not the input's first character - or the NUL of an empty input - is no prefix);  ('bad', cond) if not;
+       None if the return is not of this kind."""
+    ks = tu.kids(rnode)
+    v = tu.strip(ks[0], casts=True) if ks else None
+    if v is None or v.get('kind') != 'CXXBoolLiteralExpr' or v.get('value') is not False:
+        return None
+    pos = x.pos_of(rnode)
+    if pos is None:
+        return None
+    ids = [p['id'] for p in ps]
+
+    def first_char_of(e):
+        e = tu.strip(e, casts=True)
+        if e is None:
+            return None
+        if e.get('kind') == 'CXXOperatorCallExpr' and last_name(tu.sd(e).get('q')) == 'operator[]' and len(tu.kids(e)) == 3:
+            if x.poly_at(tu.kids(e)[2], None).as_int() == 0:
+                return x.var_of(tu.kids(e)[1])[0]
+        if e.get('kind') == 'CXXMemberCallExpr' and last_name(tu.sd(e).get('q')) in ('front', 'at'):
+            s_, obj, args = tu.call_parts(e)
+            if last_name(tu.sd(e).get('q')) == 'front' or (len(args) == 1 and x.poly_at(args[0], None).as_int() == 0):
+                return x.var_of(obj)[0] if last_name(tu.sd(e).get('q')) == 'front' else None   # at(0) throws: another behaviour
+        return None
+    diff = None
+    nonempty = False
+    PRE = ('var', ps[1]['id'], ps[1]['name'])
+    for cn, truth, blk in x.guards(pos):
+        c = tu.strip(cn, casts=True)
+        neg = False
+        while c is not None and c.get('kind') in ('UnaryOperator', 'ParenExpr') and (c.get('kind') == 'ParenExpr' or c.get('opcode') == '!'):
+            if c.get('kind') == 'UnaryOperator':
+                neg = not neg
+            c = tu.strip(tu.kids(c)[0], casts=True)
+        if c is None:
+            continue
+        val = truth != neg
+        if c.get('kind') == 'BinaryOperator' and c.get('opcode') in ('==', '!='):
+            a, b = (first_char_of(y) for y in tu.kids(c)[:2])
+            if a is not None and b is not None and sorted([a, b]) == sorted(ids):
+                if val == (c['opcode'] == '!='):
+                    diff = cn
+                continue
+        if c.get('kind') == 'CXXMemberCallExpr' and last_name(tu.sd(c).get('q')) == 'empty' and \
+                x.objkey(tu.call_parts(c)[1]) == PRE and val is False:
+            nonempty = True
+            continue
+        nf = x.cond_at(cn, truth, x.pos_of(cn))
+        for lf in (rels_of(nf) or []):
+            if lf is not None and lf[0] == 'rel' and lf[1].op in ('>=', '!='):
+                ab = about(lf[1].p, Poly.atom(('size', PRE)))
+                if ab is not None and lf[1].op == '>=' and ab[0] > 0 and Fraction(-ab[1]) / ab[0] >= 1:
+                    nonempty = True
+                if ab is not None and lf[1].op == '!=' and ab[1] == 0:
+                    nonempty = True
+    if diff is None:
+        return None
+    return ('ok', diff) if nonempty else ('bad', diff)
+
+
 def check_prefix(ctx, tu):
     R = 'R-C18-6'
     n = 0
@@ -4950,6 +5018,22 @@ def check_prefix(ctx, tu):
         ps = f['params']
         rets = [nd for b, i, nd in x.g.stmts() if nd.get('kind') == 'ReturnStmt']
         calls = list(calls_in(x, ('longestBeginningMatch',)))
+        if len(ps) == 2 and len(rets) > 1:
+            # quick rejects in front of the real test: `return false` when the first characters differ
+            keep, rej_bad = [], None
+            for rnode in rets:
+                fr_ = first_char_reject(tu, x, ps, rnode)
+                if fr_ is None:
+                    keep.append(rnode)
+                elif fr_[0] == 'bad':
+                    rej_bad = (rnode, fr_[1])
+            if rej_bad is not None:
+                ctx.violation(R, inst, '`return false` is reached whenever `%s`, and nothing on the way says that the prefix `%s` is not '
+                              'empty: for an empty prefix `%s[0]` is the terminating NUL, which differs from the first character of every '
+                              'non-empty input, so beginsWith(x, "") is false although every string begins with the empty string'
+                              % (tu.show(rej_bad[1]), ps[1]['name'], ps[1]['name']), tu.loc(rej_bad[1]), key=key + 'rejects-empty-prefix')
+                continue
+            rets = keep
         if len(ps) == 2 and not calls and rets:
             cmpv = begins_with_compare(tu, x, f, ps, rets)
             if cmpv is not None:
@@ -9202,6 +9286,102 @@ def known_nonempty_tail(tu, x, sep_write, last):
     return False
 
 
+def string_known_nonempty(tu, x, pos, e):
+    """every path to pos has taken a branch edge that says the std::string member expression e (filename / other.filename) is
+    not empty:  !e.empty()  /  e != ""  /  e.size() > 0"""
+    def okey(y):
+        y = tu.strip(y, casts=True) if y is not None else None
+        if y is None or y.get('kind') != 'MemberExpr' or tu.sd(y).get('k') != 'member':
+            return None
+        ks = tu.kids(y)
+        base = tu.strip(ks[0], casts=True) if ks else None
+        if base is None or tu.is_this(base):
+            return ('field', 'this', tu.sd(y).get('q'))
+        if base.get('kind') == 'DeclRefExpr':
+            return ('field', base.get('referencedDecl', {}).get('id'), tu.sd(y).get('q'))
+        return None
+    skey = okey(e)
+    if skey is None or pos is None:
+        return False
+    for cn, truth, blk in x.guards(pos):
+        c = tu.strip(cn, casts=True)
+        neg = False
+        while c is not None and c.get('kind') == 'UnaryOperator' and c.get('opcode') == '!':
+            neg = not neg
+            c = tu.strip(tu.kids(c)[0], casts=True)
+        if c is None:
+            continue
+        val = truth != neg
+        k = c.get('kind')
+        q = tu.sd(c).get('q') or ''
+        if k == 'CXXMemberCallExpr' and q.startswith('std::basic_string<') and last_name(q) == 'empty':
+            if okey(tu.call_parts(c)[1]) == skey and val is False:
+                return True
+        elif k == 'CXXOperatorCallExpr' and last_name(q) in ('operator==', 'operator!=') and len(tu.kids(c)) == 3:
+            a, b = tu.kids(c)[1:3]
+            for u, v in ((a, b), (b, a)):
+                lit = tu.strip(v, casts=True)
+                if okey(u) == skey and lit is not None and lit.get('kind') == 'StringLiteral' and lit.get('value') == '""':
+                    if val == (last_name(q) == 'operator!='):
+                        return True
+        elif k == 'BinaryOperator' and c.get('opcode') in ('>', '!=', '==', '>=', '<', '<='):
+            l, r = tu.kids(c)[:2]
+            op = c['opcode'] if val else {'>': '<=', '>=': '<', '<': '>=', '<=': '>', '==': '!=', '!=': '=='}[c['opcode']]
+            for u, v, o in ((l, r, op), (r, l, {'>': '<', '<': '>', '>=': '<=', '<=': '>=', '==': '==', '!=': '!='}[op])):
+                ue = tu.strip(u, casts=True)
+                cv = x.poly_at(v, None).as_int()
+                if ue is not None and ue.get('kind') == 'CXXMemberCallExpr' and last_name(tu.sd(ue).get('q')) in ('size', 'length') and \
+                        okey(tu.call_parts(ue)[1]) == skey and cv is not None:
+                    if (o == '>' and cv >= 0) or (o == '>=' and cv >= 1) or (o == '!=' and cv == 0):
+                        return True
+    return False
+
+
+def check_join_left(ctx, tu):
+    R = 'R-C18-14'
+    ctx.describe(R, 'joining file names: a path separator is put behind the string of a FileName (`filename + path_sep ...`, '
+                    '`joined.filename += filename; += path_sep`) only where that string is known to be non-empty - an empty left '
+                    'operand is neutral (FileName() + "x" is "x", not the absolute path "/x")')
+    fq = FNAME + '::filename'
+    n = 0
+    for f in sorted(tu.functions.values(), key=lambda f: f['l']):
+        if f['dep'] or f.get('implicit') or tu.cfg(f) is None or not tu.fn_file(f).endswith(('FileName.cpp', 'FileName.h')):
+            continue
+        x = FnX(tu, f)
+        file, fname = tu.fn_file(f), fn_name(f)
+        sites = []          # (node, left member expression, position)
+        for b, i, nd in x.g.stmts():
+            if nd.get('kind') == 'CXXOperatorCallExpr' and tu.sd(nd).get('q') == 'std::operator+' and len(tu.kids(nd)) == 3:
+                l, r = tu.kids(nd)[1:3]
+                le = x.peel(l)
+                if le is not None and le.get('kind') == 'MemberExpr' and tu.sd(le).get('q') == fq and \
+                        x.poly_at(r, None).as_int() in (47, 92):
+                    sites.append((nd, le, (b.id, i)))
+        # target += <FileName string>;  target += separator   (consecutive writes of one target)
+        x2, ws = field_writes(tu, f, fq)
+        by_t = {}
+        for w in ws:
+            by_t.setdefault(w[2], []).append(w)
+        for tkey, tw in by_t.items():
+            for a, b_ in zip(tw, tw[1:]):
+                if a[0] in ('append', 'assign') and b_[0] == 'append' and a[3] is not None and b_[3] is not None:
+                    ae = tu.strip(a[3], casts=True)
+                    if ae is not None and ae.get('kind') == 'MemberExpr' and tu.sd(ae).get('q') == fq and \
+                            x.poly_at(b_[3], None).as_int() in (47, 92):
+                        sites.append((b_[1], ae, x.pos_of(b_[1])))
+        for nd, le, pos in sites:
+            n += 1
+            inst = '%s %s: `%s`' % (fname, f['fty'], tu.show(nd))
+            if string_known_nonempty(tu, x, pos, le):
+                ctx.ok(R, inst, '`%s` is known to be non-empty here' % tu.show(le), tu.loc(nd))
+            else:
+                ctx.violation(R, inst, 'the separator is put behind `%s` although nothing on the way says that it is not empty: for an '
+                              'empty left operand (FileName() + "x", path() of a bare file name, an unset home folder) the result is '
+                              '"/x" - an absolute path - instead of "x"; the empty name must stay neutral, as in operator+(const '
+                              'FileName &)' % tu.show(le), tu.loc(nd), key='%s|%s|%s|separator-behind-empty-left' % (R, file, fname))
+    return n
+
+
 def check_normal_form(ctx, tu):
     R = 'R-C18-11'
     ctx.describe(R, 'FileName normal form: every function that writes the private string either is a constructor / helper that strips all '
@@ -9442,6 +9622,7 @@ def run_on(ctx, tu_drv, tu_url, tu_fn, tu_common, tu_w):
     if sorted(wv) != [('violation', 'shared')]:     # the const table `unit` is not even a candidate
         ctx.broken('R-C18-12: the positive example in witness/c18_param_order.cpp is not classified as expected (%s)' % wv)
     n11 = check_normal_form(ctx, tu_fn)
+    check_join_left(ctx, tu_fn)
     ctx.floor('R-C18-11', n11, 2, 'the two normalising constructors of FileName')
     n9 = check_param_order(ctx, tu_url, tu_w, sch)
     ctx.floor('R-C18-9', n9, 4, 'accesses to PseudoURL::params (2 appends, 2 scans) + the constructor loop')
